@@ -8,7 +8,7 @@ from .common import C, Nat, Opt, Raw, Rec, coq
 MAX_EVENTS = 6000
 
 COQ_FILES = ["C04/Model.v", "C04/Spec.v", "C04/Check.v", "C04/Lists.v", "C04/Arith.v", "C04/Sides.v", "C04/Proofs.v",
-             "C04/Corollaries.v", "C04/Example.v"]
+             "C04/Corollaries.v", "C04/Batches.v", "C04/Example.v"]
 
 TRUSTED = [
     "hand-written model coq/C04/Model.v of InterleavedSampler (ctor checkpoint derivation, __iter__, _eval_loop, "
